@@ -219,6 +219,11 @@ func (b *BlockWise[C]) Do(r *pool.Message, maxSzx SZX, maxMessageSize uint32, do
 	if loaded {
 		return nil, errors.New("invalid token")
 	}
+	// A body reassembled for this token belongs to this exchange only: what an earlier exchange
+	// with the same token left behind (it was cancelled or failed half-way) is dropped before the
+	// request goes out, and what this one leaves behind is dropped when it returns.
+	b.receivingMessagesCache.Delete(r.Token().Hash())
+	defer b.receivingMessagesCache.Delete(r.Token().Hash())
 	defer b.sendingMessagesCache.Delete(r.Token().Hash())
 	if r.Body() == nil {
 		return do(r)
